@@ -4,6 +4,7 @@ correspondence: FeatureDB.bed12 / convert.to_bed12 / Feature.sequence / len(Feat
 (GffModel/Export.lean), unit layer (tables loaded from the real database).
 oracle (real code only): field arithmetic written from the property text.
 """
+import hashlib
 import os
 
 import common
@@ -12,10 +13,23 @@ import gen_db
 from common import enc, dec
 from pyside import enc_list
 
-TRUSTED = ["pyfaidx slicing (0-based half-open) and reverse complement on ACGTNacgtn are modelled, not verified"]
+TRUSTED = ["pyfaidx slicing (0-based half-open) and reverse complement on the IUPAC codes ACGTRYKMSWBDHVN (both cases) "
+           "are modelled, not verified"]
 LEANCHECKER_MODULES = ["GffProofs.Props.C18"]
 
-COMP = {"A": "T", "C": "G", "G": "C", "T": "A", "N": "N", "a": "t", "c": "g", "g": "c", "t": "a", "n": "n"}
+# The complement of a nucleotide code, written down from the IUPAC table (independent of pyfaidx and of the model):
+# A<->T, C<->G, R<->Y (puRine/pYrimidine), K<->M (Keto/aMino), B<->V (not A / not T), D<->H (not C / not G);
+# S (strong, C/G), W (weak, A/T) and N are their own complements; the case of a letter is kept.
+_IUPAC_SRC = "ACGTRYKMSWBDHVN"
+_IUPAC_DST = "TGCAYRMKSWVHDBN"
+COMP = dict(zip(_IUPAC_SRC + _IUPAC_SRC.lower(), _IUPAC_DST + _IUPAC_DST.lower()))
+PLAIN = "ACGTNacgtn"
+IUPAC = _IUPAC_SRC + _IUPAC_SRC.lower()
+# lean/GffModel/Export.lean `complement` knows the whole IUPAC table (it used to leave R/Y/K/M/B/V/D/H unchanged): every
+# window is compared with the model.  With False, minus-strand windows holding one of these codes are judged by the
+# oracle only.
+MODEL_IUPAC_COMPLEMENT = True
+MODEL_TABLE_WRONG = set("RYKMBVDHrykmbvdh")
 
 
 def rand_transcript(r, idx):
@@ -115,8 +129,10 @@ def run(ctx):
     res = common.Result("C18")
     r = ctx.rng("c18")
     res.rule = ("transcripts with 0-6 exons and 0-4 CDS on either strand, spans matching or not, Name present or absent, "
-                "block/thick/thin featuretype choices, id or Feature argument; (start, end, strand) intervals on a random "
-                "500-base reference for sequence(); len(). non-trivial = distinct (transcript, option) call")
+                "block/thick/thin featuretype choices, id or Feature argument; (start, end, strand, use_strand) windows on a "
+                "random 500-base ACGTN reference, on a reference holding each of the 30 IUPAC codes (both cases) once "
+                "(every single-base window on '-') and on a random 300-base IUPAC reference for sequence(); len(). "
+                "non-trivial = distinct (transcript, option) call, distinct minus-strand window with an ambiguity code")
     cmds, exp, tags = [], [], []
     nsets = 25 if not ctx.thorough else 300
     for si in range(nsets):
@@ -180,29 +196,46 @@ def run(ctx):
         if len(res.samples) < 2:
             res.sample({"lines": lines[:6]})
     # sequence ----------------------------------------------------------------------------------------
-    ref = "".join(r.choice("ACGTNacgtn") for _ in range(500))
-    fa = os.path.join(ctx.scratch, "ref.fa")
-    with open(fa, "w") as fh:
-        fh.write(">chrR\n")
-        for i in range(0, len(ref), 60):
-            fh.write(ref[i:i + 60] + "\n")
+    def seq_case(ref, a, b, strand, us, stream):
+        case = {"scenario": "sequence", "stream": stream, "reference": ref, "seqid": "chrR", "start": a, "end": b,
+                "strand": strand, "use_strand": us, "no_shrink": True}
+        got = judge_sequence(ctx, res, case)
+        res.evaluations += 1
+        res.count("sequence_" + stream)
+        window = ref[a - 1:b]
+        if us and strand == "-" and any(c in MODEL_TABLE_WRONG for c in window):
+            res.count("sequence_minus_window_with_RYKMBVDH")
+            res.nontriv(("seq-iupac", stream, a, b))
+            if not MODEL_IUPAC_COMPLEMENT:
+                res.count("sequence_not_sent_to_model(Export.complement lacks RYKMBVDH)")
+                return
+        if isinstance(got, str):
+            cmds.append("seq %s %s %d %d %s %d" % (enc(ref), enc("chrR"), a, b, enc(strand), 1 if us else 0))
+            exp.append("ok " + enc(got)); tags.append(("Feature.sequence", repr((stream, ref if len(ref) < 80 else "", a, b, strand, us))))
+
+    ref = "".join(r.choice(PLAIN) for _ in range(500))
     for i in range(300 if not ctx.thorough else 3000):
         a = r.randrange(1, 501)
         b = r.randrange(a, 501)
-        strand = r.choice("+-.")
-        us = r.random() < 0.7
-        f = Feature(seqid="chrR", start=a, end=b, strand=strand)
-        got = f.sequence(fa, use_strand=us)
-        want = ref[a - 1:b]
-        if us and strand == "-":
-            want = "".join(COMP[c] for c in reversed(want))
-        res.evaluations += 1
-        if got != want or len(got) != len(f):
-            res.oracle_failures.append(("sequence() is not bases start..end (reverse-complemented on '-')",
-                                        {"start": a, "end": b, "strand": strand, "use_strand": us, "returned": got,
-                                         "expected": want}))
-        cmds.append("seq %s %s %d %d %s %d" % (enc(ref), enc("chrR"), a, b, enc(strand), 1 if us else 0))
-        exp.append("ok " + enc(got)); tags.append(("Feature.sequence", repr((a, b, strand, us))))
+        seq_case(ref, a, b, r.choice("+-."), r.random() < 0.7, "acgtn")
+    # references with IUPAC ambiguity codes in both cases (legal FASTA; the reverse complement maps R<->Y, K<->M, B<->V,
+    # D<->H and keeps S, W, N).  (i) every code once, in random order: every single-base window and every window
+    # of a few bases on the minus strand; (ii) a random 300-base reference over the 30 codes.
+    r3 = ctx.rng("c18", "iupac")
+    codes = list(IUPAC)
+    r3.shuffle(codes)
+    ref2 = "".join(codes)
+    for a in range(1, len(ref2) + 1):
+        seq_case(ref2, a, a, "-", True, "iupac_each_code")
+    for i in range(60 if not ctx.thorough else 465):
+        a = r3.randrange(1, len(ref2) + 1)
+        b = r3.randrange(a, len(ref2) + 1)
+        seq_case(ref2, a, b, r3.choice("--+."), r3.random() < 0.8, "iupac_each_code")
+    ref3 = "".join(r3.choice(IUPAC) for _ in range(300))
+    for i in range(150 if not ctx.thorough else 2000):
+        a = r3.randrange(1, 301)
+        b = min(300, a + int(r3.expovariate(0.05))) if i % 2 else r3.randrange(a, 301)
+        seq_case(ref3, a, b, r3.choice("--+."), r3.random() < 0.8, "iupac_random")
     out = ctx.model(cmds)
     if out is not None:
         for c, m, e, (comp, inp) in zip(cmds, out, exp, tags):
@@ -210,13 +243,52 @@ def run(ctx):
             if m != e:
                 res.corr_disagreements.append((comp, inp[:900], m[:300], e[:300]))
     res.assumptions = ["block / thick / thin children have pairwise different starts (SQL leaves ties unordered)",
-                       "reference sequences over ACGTNacgtn; 1 <= start <= end <= len(sequence)",
+                       "reference sequences over the IUPAC nucleotide codes ACGTRYKMSWBDHVN in both cases (no U, gap or "
+                       "other symbols: pyfaidx refuses to complement those); 1 <= start <= end <= len(sequence)",
                        "exactly one of thick_featuretype / thin_featuretype is given (both -> ValueError; neither -> the "
                        "code raises UnboundLocalError, outside the property's 'all block/thick/thin choices')"]
     return res
 
 
+def judge_sequence(ctx, res, case):
+    """the sequence clause on one (reference, start, end, strand, use_strand); returns what the real code returned"""
+    from gffutils.feature import Feature
+    ref, a, b = case["reference"], case["start"], case["end"]
+    fa = os.path.join(ctx.scratch, "ref-%s.fa" % hashlib.sha1(ref.encode()).hexdigest()[:12])
+    if not os.path.exists(fa):
+        with open(fa, "w") as fh:
+            fh.write(">%s\n" % case["seqid"])
+            for i in range(0, len(ref), 60):
+                fh.write(ref[i:i + 60] + "\n")
+    f = Feature(seqid=case["seqid"], start=a, end=b, strand=case["strand"])
+    want = ref[a - 1:b]
+    if case["use_strand"] and case["strand"] == "-":
+        want = "".join(COMP[c] for c in reversed(want))
+    try:
+        got = f.sequence(fa, use_strand=case["use_strand"])
+    except Exception as ex:
+        common.fail(res, case, "sequence_raised", "sequence() raised %r" % ex, error=dbside.err_name(ex), expected=want)
+        return ("raised", type(ex).__name__)
+    if got != want or len(got) != len(f) or len(f) != b - a + 1:
+        common.fail(res, case, "sequence_wrong",
+                    "sequence() is not bases start..end (reverse-complemented on '-'%s)"
+                    % (": IUPAC ambiguity codes in the window" if any(c not in PLAIN for c in ref[a - 1:b]) else ""),
+                    returned=got, expected=want, window=ref[a - 1:b])
+    return got
+
+
+def judge(ctx, case):
+    res = common.Result("C18")
+    if case.get("scenario") == "sequence":
+        judge_sequence(ctx, res, case)
+        res.evaluations = 1
+    return res
+
+
 def replay(ctx, payload):
+    inp = payload.get("input")
+    if isinstance(inp, dict) and inp.get("scenario") == "sequence":
+        return common.replay_failure("C18", payload, lambda case: judge(ctx, case))
     res = common.Result("C18")
     print("replay:", payload.get("what"), payload.get("input"))
     return res
